@@ -1,0 +1,26 @@
+//go:build verif
+
+package timeutil
+
+// Printing of the span types (the structural half of "formatting a parsed timer and parsing it
+// again yields the same schedule"): a span prints as a single point exactly when its two ends are
+// equal as values, otherwise both ends are printed with the separator.
+
+//@ func (Week).String
+//@   opaque
+//@   reads nothing
+
+//@ func (Clock).String
+//@   opaque
+//@   reads nothing
+
+//@ func (WeekSpan).String
+//@   props C16
+//@   ensures ws.End == ws.Start ==> result == ws.Start.String()
+//@   ensures ws.End != ws.Start ==> result == ws.Start.String() + "-" + ws.End.String()
+
+//@ func (ClockSpan).String
+//@   props C16
+//@   ensures ts.End == ts.Start ==> result == ts.Start.String()
+//@   ensures ts.End != ts.Start && ts.Split == 0 ==> result == ts.Start.String() + ite(ts.Spread, "~", "-") + ts.End.String()
+//@   ensures ts.End != ts.Start && ts.Split > 0 ==> result == ts.Start.String() + ite(ts.Spread, "~", "-") + ts.End.String() + "/" + strconv.Itoa(int(ts.Split))
